@@ -32,6 +32,15 @@ type c04Stream struct {
 	HReadSleepNs int64  `json:"h_read_sleep_ns,omitempty"`
 	HHoldNs      int64  `json:"h_hold_ns,omitempty"`
 	HCode        int    `json:"h_code,omitempty"`
+	HPark        bool   `json:"h_park,omitempty"` // some/none: hold by parking until the final check instead of sleeping
+	// padding-only DATA frames (PADDED, zero data bytes; RFC 9113 6.1): sprinkled
+	// before data frames with PadOnlyPct, and one burst of PadOnlyTotal
+	// flow-controlled bytes once PadOnlyAt request bytes have been sent; every
+	// such frame is 1..PadOnlyMax+1 bytes and stays within the credit
+	PadOnlyPct   int `json:"pad_only_pct,omitempty"`
+	PadOnlyAt    int `json:"pad_only_at,omitempty"`
+	PadOnlyTotal int `json:"pad_only_total,omitempty"`
+	PadOnlyMax   int `json:"pad_only_max,omitempty"`
 	// class B: after ExcessAt payload bytes the peer sends a frame that is
 	// ExcessBy bytes larger than its stream (or connection) credit
 	ExcessAt   int  `json:"excess_at,omitempty"`
@@ -64,7 +73,7 @@ func (s *c04Scenario) Validate() error {
 		return fmt.Errorf("no streams")
 	}
 	for _, st := range s.Streams {
-		if st.ExcessBy < 0 || st.ExcessBy > 16000 || st.Declared < 0 || st.PadMax > 255 {
+		if st.ExcessBy < 0 || st.ExcessBy > 16000 || st.Declared < 0 || st.PadMax > 255 || st.PadOnlyMax > 255 || st.PadOnlyMax < 0 || st.PadOnlyTotal < 0 || st.PadOnlyTotal > 1<<21 {
 			return fmt.Errorf("bad stream")
 		}
 		for _, n := range st.Msgs {
@@ -186,6 +195,60 @@ func genC04(seed uint64, tier string) *c04Scenario {
 			s.Streams = append(s.Streams, st)
 		}
 	}
+	if s.Class == "A" {
+		for i := range s.Streams {
+			if r.Chance(1, 4) {
+				s.Streams[i].PadOnlyPct = core.Pick(r, 5, 30, 100)
+				s.Streams[i].PadOnlyMax = core.Pick(r, 0, 1, 40, 255)
+			}
+		}
+	}
+	if s.Class == "A" && r.Chance(1, 5) && netBudget(s.Net, 600000) >= 300000 {
+		// padding-only frames worth one to several stream windows, before, between
+		// or after the messages, with the handler reading, reading k messages and
+		// then holding, or not reading at all (holding handlers park until the
+		// final check, so the stream is still open then)
+		s.Server.StreamWindow = int32(core.Pick(r, 0, 65535, 65536, 100000))
+		if r.Chance(2, 3) {
+			s.Server.Static = true
+		}
+		win := max(int(s.Server.StreamWindow), 65535)
+		s.Streams = s.Streams[:0]
+		for i := r.Range(1, 3); i > 0; i-- {
+			st := c04Stream{HMode: core.Pick(r, "all", "all", "some", "none"), StartNs: int64(core.Pick(r, 0, 1000, 1000000)), HPark: true, HCode: core.Pick(r, 0, 5)}
+			for k := r.Range(1, 3); k > 0; k-- {
+				st.Msgs = append(st.Msgs, core.Pick(r, 0, 10, 3000, 20000, win-5, win+1000))
+			}
+			at := 0
+			switch st.HMode {
+			case "all":
+				if r.Chance(1, 2) {
+					st.HReadSleepNs = int64(core.Pick(r, 1000, 1000000, 40000000))
+				}
+				tot := 0
+				for _, m := range st.Msgs {
+					tot += 5 + m
+				}
+				at = core.Pick(r, 0, tot/2, tot-1, r.Intn(tot+1))
+			case "some":
+				st.HK = r.Range(1, len(st.Msgs))
+				for _, m := range st.Msgs[:st.HK] {
+					at += 5 + m
+				}
+				st.Msgs = append(st.Msgs, 100) // something left to send after the burst
+			}
+			st.PadOnlyAt = at
+			st.PadOnlyTotal = win*core.Pick(r, 1, 1, 2, 3) + core.Pick(r, -300, 0, 1, 300)
+			st.PadOnlyMax = core.Pick(r, 255, 255, 100, 7, 0)
+			if st.PadOnlyMax < 100 {
+				st.PadOnlyTotal = min(st.PadOnlyTotal, 2500*(st.PadOnlyMax+1)) // cost bound; not a window's worth
+			}
+			if r.Chance(1, 3) {
+				st.PadPct, st.PadMax = core.Pick(r, 10, 50), core.Pick(r, 1, 30, 255)
+			}
+			s.Streams = append(s.Streams, st)
+		}
+	}
 	if s.Class == "A" && r.Chance(1, 7) && netBudget(s.Net, 600000) >= 600000 {
 		// data for streams the server has already closed: handlers return at once
 		// while (network latency) a window's worth of DATA is still in flight;
@@ -241,6 +304,8 @@ type c04Rec struct {
 	done      bool // everything sent
 	aborted   bool
 	excessTry bool // the peer sent its over-credit frame
+	padBurstDone bool
+	padOnlyBytes int
 	excessQuiet bool // ... while the handler was holding (not reading): the excess is decidable
 	excessWas int  // credit it had when it did
 }
@@ -325,9 +390,17 @@ func runC04(e *core.Env, s *c04Scenario) {
 			for k := 0; k < st.HK; k++ {
 				ops = append(ops, HOp{Op: "recv"})
 			}
-			ops = append(ops, HOp{Op: "sleep_hard", Ns: st.HHoldNs})
+			if st.HPark {
+				ops = append(ops, HOp{Op: "park"})
+			} else {
+				ops = append(ops, HOp{Op: "sleep_hard", Ns: st.HHoldNs})
+			}
 		default:
-			ops = append(ops, HOp{Op: "sleep_hard", Ns: st.HHoldNs})
+			if st.HPark {
+				ops = append(ops, HOp{Op: "park"})
+			} else {
+				ops = append(ops, HOp{Op: "sleep_hard", Ns: st.HHoldNs})
+			}
 		}
 		ops = append(ops, HOp{Op: "return", Code: st.HCode})
 		scripts = append(scripts, HScript{Tag: uint32(i + 1), Ops: ops})
@@ -454,6 +527,19 @@ func runC04(e *core.Env, s *c04Scenario) {
 			continue // a connection error may legitimately end everything
 		}
 		// class A stream: never wedged
+		if st != nil && st.WaitingCredit && st.SendWin <= 0 && h != nil && !h.InRecv && !h.Returned {
+			// the handler is not reading: the stream window may legitimately be held
+			// back by delivered data it has not consumed, but by nothing else
+			consumed := int64(0)
+			for _, n := range h.Recvd {
+				consumed += int64(5 + n)
+			}
+			if led.data[id] <= consumed {
+				e.Violate("receiver_wedged", "stream %d: at quiescence the peer has no stream window left (%d; it sent %d bytes of padding-only frames) although every one of the %d message bytes delivered so far has been consumed by the handler, which holds without reading: credit for bytes the application never has to read was not returned", id, st.SendWin, rec.padOnlyBytes, led.data[id])
+			} else {
+				e.Probe("stream_window_held_by_unread_data")
+			}
+		}
 		if st != nil && st.WaitingCredit && h != nil && h.InRecv && !h.Returned {
 			e.Violate("receiver_wedged", "stream %d: at quiescence the handler waits in RecvMsg (received %d messages) while the peer has %d more bytes but no credit (stream window %d, connection window %d): a WINDOW_UPDATE was lost", id, len(h.Recvd), c04Total(rec.spec)-rec.sentBytes, st.SendWin, p.ConnWin)
 		}
@@ -540,7 +626,34 @@ func c04Send(w *World, p *Peer, s *c04Scenario, rec *c04Rec) {
 		tap.FillPat(b[5:], rec.tag, 'c', len(sp.Msgs))
 		buf = append(buf, b...)
 	}
+	// padOnly sends total flow-controlled bytes as PADDED DATA frames without any
+	// data, never beyond the credit; false when the stream ended meanwhile
+	padOnly := func(total int) bool {
+		for total > 0 {
+			if abort() {
+				return false
+			}
+			credit := min(st.SendWin, p.ConnWin)
+			if credit <= 0 {
+				e.Probe("peer_waited_for_credit")
+				st.WaitingCredit = true
+				p.WaitFor(-1, func() bool { return (st.SendWin > 0 && p.ConnWin > 0) || abort() })
+				st.WaitingCredit = false
+				continue
+			}
+			sz := min(1+r.Intn(sp.PadOnlyMax+1), total, int(credit))
+			p.Data(id, nil, false, sz-1)
+			rec.padOnlyBytes += sz
+			total -= sz
+			e.Probe("padding_only_frame_sent")
+		}
+		return true
+	}
 	gapAt := 0
+	if sp.PadOnlyTotal > 0 && len(buf) == 0 {
+		rec.padBurstDone = true
+		padOnly(sp.PadOnlyTotal)
+	}
 	for len(buf) > 0 {
 		if abort() {
 			rec.aborted = true
@@ -597,6 +710,17 @@ func c04Send(w *World, p *Peer, s *c04Scenario, rec *c04Rec) {
 				left -= n
 			}
 			return // whatever happens, the peer sends nothing more on this stream
+		}
+		if sp.PadOnlyTotal > 0 && !rec.padBurstDone && rec.sentBytes >= sp.PadOnlyAt {
+			rec.padBurstDone = true
+			if !padOnly(sp.PadOnlyTotal) {
+				rec.aborted = true
+				return
+			}
+			continue
+		}
+		if sp.PadOnlyPct > 0 && r.Intn(100) < sp.PadOnlyPct && min(st.SendWin, p.ConnWin) > 0 {
+			padOnly(1 + r.Intn(sp.PadOnlyMax+1))
 		}
 		credit := min(st.SendWin, p.ConnWin)
 		if credit <= 0 {
